@@ -1815,7 +1815,17 @@ where
             // it in the above if stmt.
             match **unsafe { raw_node.deref() } {
                 BinEntry::Moved => {
-                    table = self.help_transfer(table, guard);
+                    let next_table = self.help_transfer(table, guard);
+                    // NOTE: until the resize has finished, bins of the next table share nodes
+                    // (the re-used tail of a split list, a re-used tree bin) and values (those of
+                    // cloned nodes) with bins of `table` that have not been forwarded yet, and
+                    // `table` can still be reached by threads that pin after us. Nothing reachable
+                    // from it may be retired, so (unlike the Java code, which has a garbage
+                    // collector) we only continue in the next table once it has replaced `table`.
+                    while self.table.load(Ordering::SeqCst, guard) == table {
+                        std::thread::yield_now();
+                    }
+                    table = next_table;
                     // start from the first bin again in the new table
                     idx = 0;
                 }
